@@ -348,7 +348,7 @@ def index_lambda_to_high_level_op(expr: IndexLambda) -> HighLevelOp:
 
     if isinstance(inner_expr, p.LogicalNot):
         try:
-            ary, = _as_array_or_scalar((inner_expr,),
+            ary, = _as_array_or_scalar((inner_expr.child,),
                                        expr.bindings,
                                        expr.shape)
             assert isinstance(ary, Array)
